@@ -14,7 +14,14 @@ INITIAL_MISSED = {"C01-m1", "C03-m2", "C04-m1", "C05-m1", "C08-m1", "C09-m1", "C
                   # fourth round
                   "C01-r4m2", "C02-r4m2", "C03-r4m1", "C04-r4m1", "C04-r4m2", "C06-r4m1", "C06-r4m2", "C08-r4m2", "C09-r4m1",
                   "C10-r4m1", "C14-r4m1", "C16-r4m2", "C18-r4m2", "C20-r4m1", "C20-r4m2"}
-only = set(sys.argv[1:])
+# --seed N: run at another VERIF_SEED and only print the verdicts (meta.json untouched) - finds catches that depend on luck
+args = sys.argv[1:]
+seed = None
+if "--seed" in args:
+    i = args.index("--seed")
+    seed = args[i + 1]
+    del args[i:i + 2]
+only = set(args)
 for name in sorted(os.listdir(os.path.join(VERIF, "seeded"))):
     d = os.path.join(VERIF, "seeded", name)
     mf = os.path.join(d, "meta.json")
@@ -23,9 +30,12 @@ for name in sorted(os.listdir(os.path.join(VERIF, "seeded"))):
     meta = json.load(open(mf))
     prop = meta["property"]
     t0 = time.time()
-    p = subprocess.run([os.path.join(VERIF, "tools/mutant.py"), "check", prop, os.path.join(d, "patch.diff"), "--tier", "quick"],
+    p = subprocess.run([os.path.join(VERIF, "tools/mutant.py"), "check", prop, os.path.join(d, "patch.diff"), "--tier", "quick"] + (["--seed", seed] if seed else []),
                        stdout=subprocess.PIPE, stderr=subprocess.STDOUT, text=True)
     verdict = {0: "MISSED", 1: "CAUGHT", 2: "INCONCLUSIVE"}.get(p.returncode, str(p.returncode))
+    if seed:
+        print(name, verdict, "seed=" + seed, flush=True)
+        continue
     meta["initial_verdict"] = ("MISSED by the version of the check that existed when this change arrived; the check was strengthened afterwards"
                                if name in INITIAL_MISSED else "CAUGHT by the version of the check that existed when this change arrived")
     if name == "C20-m1":
